@@ -132,6 +132,15 @@ Theorem C12_heartbeat_timeout :
     (N.lt (pa_clock p - lp') to -> visit cfg wp per m a = VGo (insert a lp' m) ds (if wp then [WPing a] else [])).
 Proof. exact heartbeat_visit. Qed.
 
+(* a receive error (the client's Close frame, a reset, a read error) ends the client in the iteration that sees it: the
+   messages received before it are dispatched in order, then exactly one Disconnect; the stream leaves the table and
+   nothing more is written to it, whatever the heartbeat settings *)
+Theorem C12_receive_error_disconnects :
+  forall (cfg : config) (wp : bool) (per : list (addr * per_addr)) (m : smap) (a : addr) (lp : N) (ms : list msg),
+    lookup a m = Some lp -> msgs_before_err (pa_recv (per_of per a)) = Some ms ->
+    visit cfg wp per m a = VGo (remove a m) (map (Message a) ms ++ [Disconnect a]) [].
+Proof. exact receive_error_visit. Qed.
+
 (* The code before the repair: a stream whose end went unnoticed (its reads keep saying "nothing yet") stays in the
    table; when its peer address is reused, HashMap::insert replaced it silently — the connect handler ran twice for the
    address and the first connection never got its Disconnect. Same history, repaired code: Disconnect, then Connect. *)
@@ -170,6 +179,7 @@ Example C12_demo :
     [WMsg 1 90; WMsg 2 90; WPing 2; WPing 1; WMsg 1 91; WMsg 3 93; WMsg 1 93; WMsg 2 93; WMsg 1 94; WMsg 3 94]%N.
 Proof. exact demo_run. Qed.
 
+Print Assumptions C12_receive_error_disconnects.
 Print Assumptions C12_sessions.
 Print Assumptions C12_connect_once_first.
 Print Assumptions C12_messages_once_in_order.
